@@ -17,6 +17,7 @@ import Proofs.Compose
 import Proofs.Modes
 import Proofs.Select
 import Proofs.SitesValid
+import Proofs.Ties
 namespace Coma.Props
 open Coma Coma.Spec
 
@@ -27,12 +28,23 @@ theorem C01_labels_real (P : Params) (C : ChainCfg) (hP : GoodParams P) (ref qry
     ∀ p ∈ row.pairs, p.r ∈ ref.labels false ∧ p.q ∈ qry.labels rev :=
   Coma.Proofs.alignerAlign_labels_real P C hP ref qry peaks rev it hr hq row h
 
-/-- inside one segment pairs are strictly ascending on both maps -/
+/-- inside one segment pairs are strictly ascending on both maps — also for molecules with COINCIDENT labels (label
+    coordinates only weakly ascending, as a CMAP file may have them): of two labels of one molecule at one coordinate at
+    most one is ever paired (`Proofs/Ties.lean`) -/
 theorem C01_segment_valid (P : Params) (C : ChainCfg) (hP : GoodParams P) (ref qry : OMap) (peaks : List Int)
-    (rev : Bool) (it : Int) (hr : StrictAscending ref.positions) (hq : StrictAscending qry.positions)
+    (rev : Bool) (it : Int) (hr : Ascending ref.positions) (hq : Ascending qry.positions)
     (row : Row) (h : alignerAlign P C ref qry peaks rev it = .ok row) :
     ∀ s ∈ row.segments, PairsAscending s.items :=
-  Coma.Proofs.alignerAlign_segment_valid P C hP ref qry peaks rev it hr hq row h
+  Coma.Proofs.alignerAlign_segment_valid_weak P C hP ref qry peaks rev it hr hq row h
+
+/-- two pairs of one seed peak that use different reference labels differ in reference AND query coordinate, whatever
+    labels coincide -/
+theorem C01_coincident_labels_never_both_paired (md : Int) (ref qry : OMap) (start stop : Int) (rev : Bool) (it : Int)
+    (hq : Ascending qry.positions) (a b : Pr)
+    (ha : APos.pair a ∈ engineAlign md ref qry start stop rev it)
+    (hb : APos.pair b ∈ engineAlign md ref qry start stop rev it)
+    (hne : a.r.site ≠ b.r.site) : a.r.pos ≠ b.r.pos ∧ a.q.pos ≠ b.q.pos :=
+  Coma.Proofs.engine_pairs_distinct_coords md ref qry start stop rev it hq a b ha hb hne
 
 /-- across segments: when no resolver step takes the interior index merge and every final
     segment keeps a pair, all pairs of the pass's result are strictly ascending on both maps, in
